@@ -941,6 +941,11 @@ const ENTITY_KINDS: &[&str] = &[
     "template<typename N> N tpK(N a) { N b = a; return b; }\n#void useK() { QtpK<int>(1); }",
     "enum XK { N, N_2 };\n#void useK() { QXK v = QXK::N; }",
     "static const int N = 2;\n#void useK() { int arrK[QN]; }",
+    // overloads that receive generated names (Nq_0, Nq_1) used inside a scope whose local already has such a name
+    // (added after a seeded change in the name generator's all-scopes bookkeeping was missed)
+    "void Nq(int a) {}\nvoid Nq(float a) {}\n#void ucK(int p) { int Nq_0 = p; QNq(Nq_0); QNq(1.5); }",
+    // a namespace (possibly renamed by the exporter) holding a cbuffer whose member is read through the qualified name
+    "namespace N { cbuffer CnK { float4 nmK; } }\n#void useK() { float4 v = QN::nmK; }",
 ];
 const ENTITY_KINDS_CLASS: usize = 6;
 
